@@ -1898,3 +1898,225 @@ func ruleNoDataAsFormat(r *Run) {
 	}
 	r.check(n >= 20, "repo:printf-calls", fmt.Sprintf("%d", n), "too few: rule needs review", "-")
 }
+
+// ---------------------------------------------------------------------------------------------
+// R20.48 — an index by a parameter under an explicitly released lock
+// R20.49 — a length computed in 8- or 16-bit arithmetic
+// R20.50 — a loop counter of a narrow unsigned type with an inclusive bound
+
+func init() {
+	register(ruleDef{ID: "R20.48", Prop: "C20", Tier: "quick", Floor: 1,
+		Title: "an index that can be out of range does not run under a lock only an explicit Unlock releases: in the datastore, server and datatype packages a slice indexed by a value that comes from a parameter, with no comparison of that value with the slice's length before it, is not indexed between a Lock and its explicit, non-deferred Unlock (the HTTP layer recovers the panic, the lock stays held, every later request on the object blocks)",
+		Fn:    ruleParamIndexUnderLock})
+	register(ruleDef{ID: "R20.49", Prop: "C20", Tier: "quick", Floor: 1,
+		Title: "a length is not computed in 8- or 16-bit arithmetic: no make() in the datastore, server and datatype packages takes a length or capacity that is the result of an addition or multiplication carried out in uint8, int8, uint16 or int16 (MaxDownresLevel 255 + 1 wraps to 0: the table of per-scale counters is empty and the first write panics with the instance's mutex held)",
+		Fn:    ruleNoNarrowLength})
+	register(ruleDef{ID: "R20.50", Prop: "C20", Tier: "quick", Floor: 1,
+		Title: "a loop over scales ends: no loop in the data types counts a uint8 or uint16 variable up to and including a bound of the same type that is not a constant below the type's maximum (i <= max never becomes false when max is 255: the loop spins for ever, with the lock it holds)",
+		Fn:    ruleNarrowInclusiveLoop})
+}
+
+func inHandlerPkgs(f *ssa.Function) bool {
+	p := relPkg(pkgPathOf(f))
+	return strings.HasPrefix(p, "datatype/") || p == "datastore" || p == "server"
+}
+
+func ruleParamIndexUnderLock(r *Run) {
+	w := r.W
+	nLocked, nIdx := 0, 0
+	for _, f := range w.RepoFuncs {
+		if len(f.Blocks) == 0 || isTestFunc(w, f) || !inHandlerPkgs(f) {
+			continue
+		}
+		keys := map[string]string{}
+		deferred := map[string]bool{}
+		for _, b := range f.Blocks {
+			for _, in := range b.Instrs {
+				if op, ok := asLockOp(in); ok && op.lock {
+					keys[op.key] = op.name
+				}
+				if d, ok := in.(*ssa.Defer); ok {
+					if callee := d.Call.StaticCallee(); callee != nil && strings.HasPrefix(callee.String(), "(*sync.") && (callee.Name() == "Unlock" || callee.Name() == "RUnlock") && len(d.Call.Args) > 0 {
+						k, _, _ := mutexKey(d.Call.Args[0])
+						deferred[k] = true
+					}
+				}
+			}
+		}
+		if len(keys) == 0 {
+			continue
+		}
+		nLocked++
+		k := 0
+		seen := map[string]bool{}
+		for _, b := range f.Blocks {
+			for _, in := range b.Instrs {
+				ia, ok := in.(*ssa.IndexAddr)
+				if !ok {
+					continue
+				}
+				if _, isSlice := ia.X.Type().Underlying().(*types.Slice); !isSlice {
+					continue
+				}
+				idx := stripConv(ia.Index)
+				prm, ok := idx.(*ssa.Parameter)
+				if !ok {
+					continue
+				}
+				for key, name := range keys {
+					if deferred[key] {
+						continue
+					}
+					held, _ := heldKeyAt(f, in, key)
+					if !held {
+						continue
+					}
+					id := prm.Name() + "/" + name + "/" + placeKey(ia.X)
+					if seen[id] {
+						continue
+					}
+					seen[id] = true
+					nIdx++
+					k++
+					// a comparison of the parameter with the slice's length before the index
+					safe := false
+					for _, b2 := range f.Blocks {
+						ifi, isIf := b2.Instrs[len(b2.Instrs)-1].(*ssa.If)
+						if !isIf || !b2.Dominates(b) {
+							continue
+						}
+						bo, isBo := ifi.Cond.(*ssa.BinOp)
+						if !isBo {
+							continue
+						}
+						if stripConv(bo.X) == ssa.Value(prm) && lenOf(stripConv(bo.Y)) != nil || stripConv(bo.Y) == ssa.Value(prm) && lenOf(stripConv(bo.X)) != nil {
+							safe = true
+						}
+					}
+					r.check(safe, fmt.Sprintf("%s:index-by-%s#%d:under-%s", fname(f), prm.Name(), k, name), "the index is compared with the length first",
+						"a slice is indexed by the parameter "+prm.Name()+", unchecked, while "+name+" is held and only an explicit Unlock releases it: an index past the end panics, the HTTP layer recovers, the lock is never released — the next request that needs it hangs", w.pos(ia.Pos()))
+				}
+			}
+		}
+	}
+	r.check(nLocked >= 20, "repo:locking-functions-indexing", fmt.Sprintf("%d locking functions examined, %d parameter indexes inside explicitly released sections", nLocked, nIdx), "too few: rule needs review", "-")
+}
+
+func isNarrowInt(t types.Type) bool {
+	b, ok := t.Underlying().(*types.Basic)
+	if !ok {
+		return false
+	}
+	switch b.Kind() {
+	case types.Uint8, types.Int8, types.Uint16, types.Int16:
+		return true
+	}
+	return false
+}
+
+func ruleNoNarrowLength(r *Run) {
+	w := r.W
+	n := 0
+	for _, f := range w.RepoFuncs {
+		if len(f.Blocks) == 0 || isTestFunc(w, f) || !inHandlerPkgs(f) {
+			continue
+		}
+		k := 0
+		for _, b := range f.Blocks {
+			for _, in := range b.Instrs {
+				ms, ok := in.(*ssa.MakeSlice)
+				if !ok {
+					continue
+				}
+				n++
+				for _, lv := range []ssa.Value{ms.Len, ms.Cap} {
+					if lv == nil {
+						continue
+					}
+					v := lv
+					for {
+						if cv, ok := v.(*ssa.Convert); ok {
+							v = cv.X
+							continue
+						}
+						break
+					}
+					bo, ok := v.(*ssa.BinOp)
+					if !ok || !(bo.Op == token.ADD || bo.Op == token.MUL || bo.Op == token.SHL) || !isNarrowInt(bo.Type()) {
+						continue
+					}
+					if _, isC := bo.X.(*ssa.Const); isC {
+						if _, isC2 := bo.Y.(*ssa.Const); isC2 {
+							continue
+						}
+					}
+					k++
+					r.violation(fmt.Sprintf("%s:make#%d:length-in-%s", fname(f), k, bo.Type().String()),
+						"the length of a make() is computed in "+bo.Type().String()+" arithmetic: at the top of the type's range it wraps (255+1 = 0) and the slice is far too short — the first index into it panics", w.pos(ms.Pos()))
+				}
+			}
+		}
+	}
+	r.check(n >= 100, "repo:make-slices", fmt.Sprintf("%d make() examined", n), "too few: rule needs review", "-")
+}
+
+func ruleNarrowInclusiveLoop(r *Run) {
+	w := r.W
+	n, loops := 0, 0
+	for _, f := range w.RepoFuncs {
+		if len(f.Blocks) == 0 || isTestFunc(w, f) || !inHandlerPkgs(f) {
+			continue
+		}
+		k := 0
+		for _, b := range f.Blocks {
+			for _, in := range b.Instrs {
+				phi, ok := in.(*ssa.Phi)
+				if !ok || !isNarrowInt(phi.Type()) {
+					continue
+				}
+				bt := phi.Type().Underlying().(*types.Basic)
+				if bt.Kind() != types.Uint8 && bt.Kind() != types.Uint16 {
+					continue
+				}
+				counts := false
+				for _, e := range phi.Edges {
+					if bo, ok := e.(*ssa.BinOp); ok && bo.Op == token.ADD && bo.X == ssa.Value(phi) {
+						if c, ok := constInt(bo.Y); ok && c == 1 {
+							counts = true
+						}
+					}
+				}
+				if !counts {
+					continue
+				}
+				loops++
+				for _, ref := range *phi.Referrers() {
+					bo, ok := ref.(*ssa.BinOp)
+					if !ok || bo.Op != token.LEQ || bo.X != ssa.Value(phi) {
+						continue
+					}
+					// decides the loop?
+					decides := false
+					for _, ref2 := range *bo.Referrers() {
+						if _, isIf := ref2.(*ssa.If); isIf {
+							decides = true
+						}
+					}
+					if !decides {
+						continue
+					}
+					n++
+					k++
+					max := int64(255)
+					if bt.Kind() == types.Uint16 {
+						max = 65535
+					}
+					c, isConst := constInt(bo.Y)
+					r.check(isConst && c < max, fmt.Sprintf("%s:counter-%s#%d:bound-below-type-max", fname(f), phi.Comment, k), "the inclusive bound is a constant below the type's maximum",
+						"the loop counts a "+bt.Name()+" up to and including a bound that can be the type's maximum: the condition is then always true, the counter wraps to 0 and the loop never ends (with the locks it holds)", w.pos(bo.Pos()))
+				}
+			}
+		}
+	}
+	r.check(loops >= 3, "repo:narrow-counters", fmt.Sprintf("%d narrow unsigned loop counters, %d with an inclusive bound", loops, n), "too few: rule needs review", "-")
+}
